@@ -622,7 +622,7 @@ func main() {
 	rng := lib.NewRng(f.Seed)
 	out := lib.NewOut("C16", f)
 	out.Imports = "From Verif Require Import Model.Switch.\n"
-	out.Rule = "sequential histories: client family alternates 1.20.1 / 1.21.4 (sometimes 1.20.4); 3 scripted backends (per accepted connection: accept 58%, refuse 10%, kick in login 10%, kick in configuration 11% (pre-1.20.2 clients only; 1.20.2+ get a play kick instead), kick in play before JoinGame 11%) and in half of the histories a 4th backend that never answers the login; try list = ordered subset of the 3 (rarely with the stalling one); log in, then 4-7 operations drawn from Connect / ConnectWithIndication to a random backend, kick from or loss of the current backend, a request issued while a request to the stalling backend is in flight, requests to the stalling backend (400 ms context); observation after each operation = (results, CurrentServer, Players() of every server, open backend connections per server, Active). concurrent histories: player on s0, 2-3 goroutines call Connect at once to random backends (s0 = current), logical-clock stamps + final observation. non-trivial = a sequential history with at least one successful switch and one failed attempt, or a concurrent history in which at least two calls were admitted or one was refused as in-progress; distinct = distinct case term"
+	out.Rule = "sequential histories: client family alternates 1.20.1 / 1.21.4 (sometimes 1.20.4); 3 scripted backends (per accepted connection: accept 58%, refuse 10%, kick in login 10%, kick in configuration 11% (pre-1.20.2 clients only; 1.20.2+ get a play kick instead), kick in play before JoinGame 11%) and in half of the histories a 4th backend that never answers the login; try list = ordered subset of the 3 (rarely with the stalling one); log in, then 4-7 operations drawn from Connect / ConnectWithIndication to a random backend, kick from or loss of the current backend, 1-2 requests issued one after the other while a request to the stalling backend is in flight, requests to the stalling backend (400 ms context); observation after each operation = (results, CurrentServer, Players() of every server, open backend connections per server, Active). concurrent histories: player on s0, 2-3 goroutines call Connect at once to random backends (s0 = current), logical-clock stamps + final observation. non-trivial = a sequential history with at least one successful switch and one failed attempt, or a concurrent history in which at least two calls were admitted or one was refused as in-progress; distinct = distinct case term"
 	nSeq := f.Count(44)
 	nCon := f.Count(20)
 	seqs := make([]*seqCase, nSeq)
